@@ -188,13 +188,17 @@ RESOLUTIONS = ["480p (640 x 480)", "720p (1280 x 720)", "1080p (1920 x 1080)", "
 
 @st.composite
 def specs(draw, sharing=None, builders=None, max_len=48, long_prob=0.1, neg_stored=0.15, fixed=0.2,
-          max_ups=3, spare_ups=2, empty_lists=0.05, explicit=0.7, zero_journey=0.1):
+          max_ups=3, spare_ups=2, empty_lists=0.05, explicit=0.7, zero_journey=0.1, big=0.0):
     """A well-formed model. ``sharing``: none | infra_only | jobs_too (drawn when None)."""
     if sharing is None:
         sharing = draw(st.sampled_from(["none", "infra_only", "jobs_too", "jobs_too"]))
     if builders is None:
         builders = draw(st.floats(0, 1)) < 0.35
     objs = {}
+    # a fraction of larger systems (thorough tiers): more servers, jobs, steps, journeys and usage patterns
+    is_big = big > 0 and draw(st.floats(0, 1)) < big
+    if is_big:
+        max_ups = max_ups + 2
 
     def fill(cls, entry, attrs=None, prob=explicit):
         for a in (attrs if attrs is not None else S.quantity_inputs(cls)):
@@ -203,7 +207,7 @@ def specs(draw, sharing=None, builders=None, max_len=48, long_prob=0.1, neg_stor
         return entry
 
     # servers with their storage
-    n_srv = draw(st.integers(1, 3))
+    n_srv = draw(st.integers(1, 4 if is_big else 3))
     servers = []
     for i in range(n_srv):
         stn = "st%d" % i
@@ -289,7 +293,7 @@ def specs(draw, sharing=None, builders=None, max_len=48, long_prob=0.1, neg_stor
 
     # jobs
     plain_servers = [s for s in servers if objs[s]["cls"] != "GPUServer"]
-    n_jobs = draw(st.integers(1, 5))
+    n_jobs = draw(st.integers(1, 9 if is_big else 5))
     jobs = []
     for i in range(n_jobs):
         if services and draw(st.floats(0, 1)) < 0.5:
@@ -334,11 +338,11 @@ def specs(draw, sharing=None, builders=None, max_len=48, long_prob=0.1, neg_stor
         return draw(st.lists(st.sampled_from(pool), min_size=lo, max_size=hi))
 
     if sharing == "jobs_too":
-        steps = ["step%d" % i for i in range(draw(st.integers(1, 4)))]
+        steps = ["step%d" % i for i in range(draw(st.integers(1, 7 if is_big else 4)))]
         for s in steps:
             lo = 0 if draw(st.floats(0, 1)) < 0.3 else 1
             objs[s] = fill("UsageJourneyStep", {"cls": "UsageJourneyStep", "jobs": some(jobs, lo, 3)})
-        journeys = ["uj%d" % i for i in range(draw(st.integers(1, 3)))]
+        journeys = ["uj%d" % i for i in range(draw(st.integers(1, 5 if is_big else 3)))]
         for j in journeys:
             lo = 0 if draw(st.floats(0, 1)) < empty_lists else 1
             objs[j] = {"cls": "UsageJourney", "uj_steps": some(steps, lo, 3)}
